@@ -90,8 +90,12 @@ func drawC17(src *vs.Src) *c17Params {
 			p.Auth = true
 		}
 	}
-	p.Variant = pickStr(src, []string{"cover", "cover", "cover", "gap", "gap", "beyond", "beyond-whole", "conflict-first", "conflict-later", "seq-flood", "interleave", "interleave"})
+	p.Variant = pickStr(src, []string{"cover", "cover", "cover", "gap", "gap", "beyond", "beyond-whole", "slow", "conflict-first", "conflict-later", "seq-flood", "interleave", "interleave"})
 	p.Pieces = 2 + src.Intn(12)
+	if p.Variant == "slow" {
+		// the first ClientHello arrives in three fragments 16 s apart: 32 s in all, never 30 s without a fragment
+		p.Role, p.Target, p.Pieces = "server", "CH", 3
+	}
 	return p
 }
 
@@ -101,6 +105,11 @@ func c17Plan(src *vs.Src, p *c17Params, body []byte) []peer.FragSpec {
 	n := len(body)
 	if n < 2 {
 		return nil
+	}
+	if p.Variant == "slow" && n >= 3 {
+		a := 1 + src.Intn(n-2)
+		b := a + 1 + src.Intn(n-a-1)
+		return []peer.FragSpec{{Off: 0, Len: a}, {Off: a, Len: b - a, DelayMs: 16000}, {Off: b, Len: n - b, DelayMs: 16000}}
 	}
 	if p.Variant == "beyond-whole" {
 		// one fragment at offset 0 that carries the whole message and some bytes more than the announced length
@@ -324,6 +333,9 @@ func c17Frag(c *Case, src *vs.Src, p *c17Params, r *Result) *Result {
 	realIsClient := p.Role == "client"
 	w := NewWorld(c.Seed, src)
 	w.K.MaxElapsed = 30 * time.Second
+	if p.Variant == "slow" {
+		w.K.MaxElapsed = 90 * time.Second
+	}
 	env := NewEnv(w)
 	var rc *EPConf
 	o := &peer.Opts{Suites: []uint16{p.Suite}}
@@ -353,7 +365,7 @@ func c17Frag(c *Case, src *vs.Src, p *c17Params, r *Result) *Result {
 	h.Peer.Sleep = vs.Sleep
 	var plan []peer.FragSpec
 	var bodyLen int
-	targetType := map[string]byte{"CERT": ref.TCertificate, "SKX": ref.TServerKeyExchange, "SH": ref.TServerHello, "CKE": ref.TClientKeyExchange, "CV": ref.TCertificateVerify}[p.Target]
+	targetType := map[string]byte{"CERT": ref.TCertificate, "SKX": ref.TServerKeyExchange, "SH": ref.TServerHello, "CKE": ref.TClientKeyExchange, "CV": ref.TCertificateVerify, "CH": ref.TClientHello}[p.Target]
 	recvAtPlan := -1 // how many messages the scripted side had received when it sent the fragment plan
 	var stash *peer.FragSpec // interleave: the second part of the target message, sent inside the next message
 	h.Peer.FragPlan = func(typ byte, body []byte) []peer.FragSpec {
